@@ -180,8 +180,41 @@ vp_as_ref_str(&pattern).to_lowercase()
             res.sp_inner().sp_no_proxy() == self.sp_inner().sp_no_proxy().push(res.sp_inner().sp_no_proxy().last()) && res.sp_inner().sp_no_proxy().last()@ == lower(as_ref_str_spec(pattern)), // id: entry_added_lowercased [C11]
             res.sp_inner().sp_http() == self.sp_inner().sp_http(), res.sp_inner().sp_https() == self.sp_inner().sp_https(), res.sp_inner().sp_disabled() == self.sp_inner().sp_disabled(), // id: nothing_else_changes [C11]
 //@@ end
+//@@ fn src/request/proxy.rs impl~ProxySettingsBuilder http_proxy props=C11
+//@@ rw R1
+val.into()
+//@@ =>
+vp_into_opt_url(val)
+//@@ contract
+        ensures
+            res.sp_inner().sp_http() == into_opt_url_spec(val), // id: http_proxy_is_the_given_value [C11]
+            res.sp_inner().sp_https() == self.sp_inner().sp_https(), res.sp_inner().sp_disabled() == self.sp_inner().sp_disabled(), res.sp_inner().sp_no_proxy() == self.sp_inner().sp_no_proxy(), // id: only_the_http_proxy_changes [C11]
+//@@ end
+//@@ fn src/request/proxy.rs impl~ProxySettingsBuilder https_proxy props=C11
+//@@ rw R1
+val.into()
+//@@ =>
+vp_into_opt_url(val)
+//@@ contract
+        ensures
+            res.sp_inner().sp_https() == into_opt_url_spec(val), // id: https_proxy_is_the_given_value [C11]
+            res.sp_inner().sp_http() == self.sp_inner().sp_http(), res.sp_inner().sp_disabled() == self.sp_inner().sp_disabled(), res.sp_inner().sp_no_proxy() == self.sp_inner().sp_no_proxy(), // id: only_the_https_proxy_changes [C11]
+//@@ end
 //@@ fn src/request/proxy.rs impl~ProxySettingsBuilder build props=C11
 //@@ contract
         ensures res == self.sp_inner(),
+//@@ end
+//@@ fn src/request/proxy.rs impl~Default~for~ProxySettingsBuilder default rename=default_impl props=C11
+//@@ contract
+        ensures res.sp_inner().sp_http() is None, res.sp_inner().sp_https() is None, !res.sp_inner().sp_disabled(), res.sp_inner().sp_no_proxy().len() == 0,
+//@@ end
+}
+/// `val.into()` for `V: Into<Option<Url>>` (a `Url`, an `Option<Url>` or `None`)
+pub uninterp spec fn into_opt_url_spec<V>(v: V) -> Option<Url>;
+#[verifier::external_body] pub fn vp_into_opt_url<V: Into<Option<Url>>>(v: V) -> (r: Option<Url>) ensures r == into_opt_url_spec(v) { v.into() }
+impl ProxySettings {
+//@@ fn src/request/proxy.rs impl~ProxySettings builder props=C11
+//@@ contract
+        ensures res.sp_inner().sp_http() is None, res.sp_inner().sp_https() is None, !res.sp_inner().sp_disabled(), res.sp_inner().sp_no_proxy().len() == 0, // id: builder_starts_empty_too [C11]
 //@@ end
 }
